@@ -311,7 +311,7 @@ def main() -> int:
             else:
                 rep.violation(msg, w, key="layout:" + "+".join(sorted(v["ops"])))
     # ---- (c) black-box differential on re-laid-out programs
-    n_fw = 24 if t == "quick" else 300
+    n_fw = 64 if t == "quick" else 400
     fw_cases = [(i, sd, prog.generate((PROP, sd, "fwl", i), "clean")["source"]) for i in range(n_fw)]
     fw_cases += [(n_fw + i, sd, poly_program(rng_for(PROP, sd, "polyfw", i))) for i in range(n_fw // 2)]
     fw_cases += [(2 * n_fw + i, sd, src) for i, src in enumerate(corpus.declared_in_block_scripts())]
